@@ -1244,7 +1244,7 @@ func c08ProbeF34(r *Result) {
 func init() {
 	register("C08", func(r *Result, rng *rand.Rand, tier string) {
 		c08ProbeF34(r)
-		n := map[string]int{"quick": 60, "thorough": 1500, "search": 600}[tier]
+		n := map[string]int{"quick": 120, "thorough": 1500, "search": 600}[tier]
 		for i := 0; i < n && !expired(); i++ {
 			c08DWorld(r, rng.Int63())
 		}
